@@ -21,10 +21,11 @@ RULE = ("random pipelines (vf/pipelines.py: Probe/PlaneWave x potentials x detec
         "precisions ran; distinct = distinct case signature")
 CLAUSES = ["float64-agree:values", "float32-agree:values", "configured-dtype", "fftw-backend-reached", "numpy-backend-reached",
            "transform-float64-agree", "transform-float32-agree"]
-QUICK = dict(n=22, time=50)
+QUICK = dict(n=18, time=45)
 THOROUGH = dict(n=700, time=480, shards=16)
 
 EFFORTS = ["FFTW_ESTIMATE", "FFTW_MEASURE", "FFTW_PATIENT"]
+NO_FFT_OPS = ("gaussian_filter",)
 
 
 def gen(rng, tier):
@@ -143,7 +144,10 @@ def check(ctx, case):
                     out = _transform(case, cfg[2])
                 dn = ctx.monitors.get("fftw-plan-created", 0) - n0
                 dm = ctx.monitors.get("numpy-fft-called", 0) - m0
-                if cfg[0] == "fftw":
+                if case["kind"] == "transform" and case["op"] in NO_FFT_OPS:
+                    # real-space filters do not call an FFT: nothing to reach, only the results are compared
+                    ctx.note("transform-without-fft:" + case["op"])
+                elif cfg[0] == "fftw":
                     ctx.expect(dn > 0, "fftw-backend-reached", cfg=cfg)
                 else:
                     ctx.expect(dm > 0 and dn == 0, "numpy-backend-reached", cfg=cfg, fftw=dn, numpy=dm)
